@@ -74,6 +74,11 @@ func (s *statsManager) sessionInActive() {
 	atomic.AddUint64(&s.totalStats.ConnectionStats.InactiveCurrent, 1)
 }
 
+// sessionsRestored counts the sessions a durable store brought back at start-up: they are offline sessions.
+func (s *statsManager) sessionsRestored(n int) {
+	atomic.AddUint64(&s.totalStats.ConnectionStats.InactiveCurrent, uint64(n))
+}
+
 func (s *statsManager) sessionTerminated(clientID string, reason SessionTerminatedReason) {
 	var i *uint64
 	switch reason {
